@@ -66,8 +66,47 @@ def check_input(name: str, infos: list[Any], ops: list[list[Any]], named: list[A
             out.update({"status": "violation", "kind": "fallback-inexact", "what": "fallback not exact: " + diff,
                         "witness": {"kind": "fallback-inexact", "text": text[:1500]}})
             return out
+    if not out["fallback"]:
+        # forced fallback: the structuring passes run for real (and mutate what they are given), then the writer fails;
+        # the fallback answer must still be the INPUT, op for op (the backup copy is taken early and deep enough)
+        diff = _forced_fallback(infos, ops, named)
+        if diff is not None:
+            out.update({"status": "violation", "kind": "forced-fallback-inexact",
+                        "what": "after a failure in the writer the fallback answer is not the input: " + diff,
+                        "witness": {"kind": "forced-fallback-inexact"}})
+            return out
+        out["equal"] += len(ops)
     out["sample"] = {"input_ops": sum(len(r) for r in ops), "fallback": out["fallback"], "answer": text[:200]}
     return out
+
+
+def _forced_fallback(infos: list[Any], ops: list[list[Any]], named: list[Any]) -> str | None:
+    import explorerscript.ssb_converting.ssb_decompiler as D
+    from harness.pC01 import compile_text
+
+    class W:
+        def __init__(self, *a: Any, **k: Any) -> None:
+            pass
+
+        def write_content(self) -> None:
+            raise AssertionError("forced by the harness: the writer gives up")
+
+    orig = D.RoutineWriteHandler
+    D.RoutineWriteHandler = W  # type: ignore
+    try:
+        try:
+            text, smap = pC02.decompile(copy.deepcopy(infos), copy.deepcopy(ops), named)
+        except Exception as e:  # noqa
+            return f"convert() raised {type(e).__name__}: {str(e)[:100]}"
+    finally:
+        D.RoutineWriteHandler = orig  # type: ignore
+    if not text.startswith(MARKER):
+        return "answer without the marker line"
+    try:
+        c = compile_text(text)
+    except Exception as e:  # noqa
+        return f"fallback text rejected: {type(e).__name__}: {str(e)[:100]}"
+    return ops_equal_up_to_offsets(ops, c.routine_ops)
 
 
 def task(name: str, item: Any) -> dict[str, Any]:
